@@ -66,8 +66,25 @@ func (h *History) insertRows(table string, from, n int) error {
 			if h.Rng.Chance(1, 12) {
 				sz = hx.Pick(h.Rng, []int{3000, 9000, 30000})
 			}
-			vals = append(vals, fmt.Sprintf("(%d, %d, %s, %s, JSON_OBJECT('n', %d, 'p', %s), 'v%d')",
-				j, h.Rng.Intn(97), h.big("s", sz), h.big("b", sz/2+10), j, h.big("j", sz/3+10), h.Rng.Intn(1000)))
+			sv, bv, jv := h.big("s", sz), h.big("b", sz/2+10), fmt.Sprintf("JSON_OBJECT('n', %d, 'p', %s)", j, h.big("j", sz/3+10))
+			if h.Rng.Chance(1, 7) {
+				// NULL in an address-capable column next to out-of-band values in the others (> 2 KiB)
+				bigS, bigB := h.big("ns", 3000+h.Rng.Intn(4000)), h.big("nb", 2600+h.Rng.Intn(4000))
+				bigJ := fmt.Sprintf("JSON_OBJECT('n', %d, 'p', %s)", j, h.big("nj", 2600+h.Rng.Intn(4000)))
+				switch h.Rng.Intn(5) {
+				case 0:
+					sv, bv, jv = "NULL", "NULL", bigJ
+				case 1:
+					sv, bv, jv = "NULL", bigB, bigJ
+				case 2:
+					sv, bv, jv = bigS, "NULL", bigJ
+				case 3:
+					sv, bv, jv = "NULL", bigB, "NULL"
+				case 4:
+					sv, bv, jv = bigS, bigB, "NULL"
+				}
+			}
+			vals = append(vals, fmt.Sprintf("(%d, %d, %s, %s, %s, 'v%d')", j, h.Rng.Intn(97), sv, bv, jv, h.Rng.Intn(1000)))
 		}
 		if err := h.x(fmt.Sprintf("INSERT INTO %s (id, k, s, b, j, v) VALUES %s", table, strings.Join(vals, ","))); err != nil {
 			return err
@@ -223,6 +240,7 @@ func (h *History) Build(ctx context.Context) error {
 		}
 		return h.x("CALL dolt_checkout('main')")
 	})
+	h.PrepareOldGenOnly()
 	// interactive rebase left in progress
 	h.try("interactive-rebase", func() error {
 		if err := h.xs(
@@ -252,6 +270,68 @@ func (h *History) Build(ctx context.Context) error {
 	})
 	h.try("tuple", func() error { return h.R.DDB.SetTuple(ctx, "verif-key", []byte("verif-value")) })
 	return nil
+}
+
+// PrepareOldGenOnly commits, on branches of their own, data that a first collection will move into
+// the old generation and that OrphanToNewGen later leaves reachable ONLY through new-generation
+// roots (tag, staged root of a working set, stash head commit, merge state of a working set).
+func (h *History) PrepareOldGenOnly() {
+	for i, b := range []string{"og_tag", "og_reset", "og_stash"} {
+		b := b
+		id := 9101 + i
+		h.try("oldgen-candidate:"+b, func() error {
+			return h.xs(
+				"CALL dolt_checkout('main')",
+				fmt.Sprintf("CALL dolt_checkout('-b', '%s')", b),
+				fmt.Sprintf("INSERT INTO t2 VALUES (%d, 1, %s)", id, h.big(b, 15000)),
+				fmt.Sprintf("UPDATE t1 SET s = %s WHERE id = %d", h.big(b+"s", 6000), 20+i),
+				fmt.Sprintf("CALL dolt_commit('-am', 'only on %s')", b),
+				"CALL dolt_checkout('main')",
+			)
+		})
+	}
+	h.try("oldgen-candidate:og_side+og_merge", func() error {
+		return h.xs(
+			"CALL dolt_checkout('main')",
+			"CALL dolt_checkout('-b', 'og_side')",
+			fmt.Sprintf("UPDATE t1 SET v = 'ogside', b = %s WHERE id = 9", h.big("ogside", 9000)),
+			"CALL dolt_commit('-am', 'og side')",
+			"CALL dolt_checkout('main')",
+			"CALL dolt_checkout('-b', 'og_merge')",
+			"UPDATE t1 SET v = 'ogmerge' WHERE id = 9",
+			"CALL dolt_commit('-am', 'og merge')",
+			"CALL dolt_checkout('main')",
+		)
+	})
+}
+
+// OrphanToNewGen runs after a first collection: every candidate of PrepareOldGenOnly loses its
+// branch and stays reachable only from a tag / a working set's staged root / a stash / a working
+// set's merge state.
+func (h *History) OrphanToNewGen() {
+	h.try("orphan:tag-on-deleted-branch", func() error {
+		return h.xs("CALL dolt_checkout('main')", "CALL dolt_tag('og_tag_t', 'og_tag')", "CALL dolt_branch('-D', 'og_tag')")
+	})
+	h.try("orphan:reset-soft-staged-root", func() error {
+		return h.xs("CALL dolt_checkout('og_reset')", "CALL dolt_reset('--soft', 'HEAD~1')", "CALL dolt_checkout('main')")
+	})
+	h.try("orphan:stash-on-deleted-branch", func() error {
+		return h.xs(
+			"CALL dolt_checkout('og_stash')",
+			"UPDATE t2 SET note = 'stashed after first gc' WHERE id = 9103",
+			"CALL dolt_stash('push', 'ogst')",
+			"CALL dolt_checkout('main')",
+			"CALL dolt_branch('-D', 'og_stash')",
+		)
+	})
+	h.try("orphan:merge-state-from-deleted-branch", func() error {
+		return h.xs(
+			"CALL dolt_checkout('og_merge')",
+			"CALL dolt_merge('og_side')",
+			"CALL dolt_checkout('main')",
+			"CALL dolt_branch('-D', 'og_side')",
+		)
+	})
 }
 
 // CraftedWorkingSet writes, through the real writers (doltdb.UpdateWorkingSet →
